@@ -18,6 +18,79 @@ package core
 //@   ensures sibling [C20]: label.Name == "..." && label.PackageName != "" && that.PackageName != label.PackageName && \
 //@      !hasPrefix(that.PackageName, label.PackageName + "/") ==> !result
 
+//@ func (BuildLabel).Matches
+//@   requires rootalias: label.PackageName != "."
+//@   modifies nothing
+//@   ensures dots [C20]: label.Name == "..." ==> result == under(label.PackageName, other.PackageName)
+//@   ensures all [C20]: label.Name == "all" ==> result == (label.PackageName == other.PackageName)
+//@   ensures exact [C20]: label.Name != "..." && label.Name != "all" ==> result == (label == other.Parent())
+
+// ---------------------------------------------------------------------------------------------
+// Visibility (C33)
+//
+//@ spec inExp(exps []BuildLabel, l BuildLabel) bool = l.Subrepo == "" && exists i int :: 0 <= i && i < len(exps) && selects(exps[i], l)
+//@ spec visibleTo(vis []BuildLabel, l BuildLabel) bool = exists i int :: 0 <= i && i < len(vis) && selects(vis[i], l)
+//
+//@ func (BuildLabel).isExperimental
+//@   requires state != nil
+//@   modifies nothing
+//@   invariant "range state.experimentalLabels" none: forall j int :: 0 <= j && j < idx ==> !selects(state.experimentalLabels[j], label)
+//@   ensures spec [C33 C20]: result == inExp(state.experimentalLabels, label)
+//
+//@ func (BuildLabel).CanSee
+//@   requires state != nil && dep != nil
+//@   modifies nothing
+//@   invariant "range dep.Visibility" none: forall j int :: 0 <= j && j < idx ==> !selects(dep.Visibility[j], label.Parent())
+//@   ensures samepkg [C33]: label.PackageName == dep.Label.PackageName ==> result
+//@   ensures exp_barrier [C33]: label.PackageName != dep.Label.PackageName && inExp(state.experimentalLabels, dep.Label) && \
+//@      !inExp(state.experimentalLabels, label) ==> !result
+//@   ensures rule [C33]: label.PackageName != dep.Label.PackageName && !(inExp(state.experimentalLabels, dep.Label) && \
+//@      !inExp(state.experimentalLabels, label)) ==> result == (visibleTo(dep.Visibility, label.Parent()) || \
+//@      dep.Label.PackageName == label.Parent().PackageName || inExp(state.experimentalLabels, label))
+
+// ---------------------------------------------------------------------------------------------
+// Label filters (C36)
+//
+//@ spec labelMatch(pattern string, s string) bool = pattern == s || (hasSuffix(pattern, "*") && hasPrefix(s, substr(pattern, 0, len(pattern) - 1)))
+//@ spec hasLabelS(ls []string, isTest bool, label string) bool = (exists i int :: 0 <= i && i < len(ls) && labelMatch(label, ls[i])) || (label == "test" && isTest)
+//@ spec hasAllS(ls []string, isTest bool, want []string) bool = forall i int :: 0 <= i && i < len(want) ==> hasLabelS(ls, isTest, want[i])
+//@ spec groupOK(ls []string, isTest bool, g string) bool = hasAllS(ls, isTest, strings.Split(g, ","))
+//@ spec anyGroup(ls []string, isTest bool, gs []string) bool = exists i int :: 0 <= i && i < len(gs) && groupOK(ls, isTest, gs[i])
+//
+//@ func match
+//@   modifies nothing
+//@   ensures spec [C36]: result == labelMatch(pattern, s)
+//
+//@ func (BuildTarget).HasLabel
+//@   requires target != nil
+//@   modifies nothing
+//@   invariant "range target.Labels" none: forall j int :: 0 <= j && j < idx ==> !labelMatch(label, target.Labels[j])
+//@   ensures spec [C36]: result == hasLabelS(target.Labels, target.Test != nil, label)
+//
+//@ func (BuildTarget).HasAllLabels
+//@   requires target != nil
+//@   modifies nothing
+//@   invariant "range labels" all: forall j int :: 0 <= j && j < idx ==> hasLabelS(target.Labels, target.Test != nil, labels[j])
+//@   ensures spec [C36]: result == hasAllS(target.Labels, target.Test != nil, labels)
+//
+//@ func (BuildTarget).ShouldInclude
+//@   requires target != nil
+//@   modifies nothing
+//@   invariant "range includes" none: shouldInclude == (len(includes) == 0) && \
+//@      forall j int :: 0 <= j && j < idx ==> !groupOK(target.Labels, target.Test != nil, includes[j])
+//@   invariant "range excludes" none: forall j int :: 0 <= j && j < idx ==> !groupOK(target.Labels, target.Test != nil, excludes[j])
+//@   invariant "range excludes" keep: shouldInclude == (len(includes) == 0 || anyGroup(target.Labels, target.Test != nil, includes))
+//@   ensures rule [C36]: result == ((len(includes) == 0 || anyGroup(target.Labels, target.Test != nil, includes)) && \
+//@      !anyGroup(target.Labels, target.Test != nil, excludes))
+//
+//@ func (BuildState).ShouldInclude
+//@   requires state != nil && target != nil
+//@   modifies nothing
+//@   invariant "range state.ExcludeTargets" none: forall j int :: 0 <= j && j < idx ==> !selects(state.ExcludeTargets[j], target.Label)
+//@   ensures rule [C36 C20]: result == (!visibleTo(state.ExcludeTargets, target.Label) && \
+//@      (len(state.Include) == 0 || anyGroup(target.Labels, target.Test != nil, state.Include)) && \
+//@      !anyGroup(target.Labels, target.Test != nil, state.Exclude))
+
 // ---------------------------------------------------------------------------------------------
 // Coverage merging (C27)
 //
